@@ -438,7 +438,20 @@ def cte():
 
 
 @functools.lru_cache(maxsize=None)
-def statement():
+def assign_statement():
+    """MySQL user-variable assignments: SET @v := e [, @w := e]  /  SELECT @v := e [, @w := e] [FROM t]
+    (the Assignment group runs to the end of the statement, so only relations between runs are checked on these)"""
+    var = st.sampled_from(['@a', '@v1', '@total', '@b', '@x_y'])
+    one = st.tuples(var, expr(0)).map(lambda t: seq(L('var', t[0]), L('assign', ':='), t[1]))
+    items = st.lists(one, min_size=1, max_size=3).map(comma_list)
+    sel = st.tuples(items, st.one_of(st.none(), column_ref)).map(
+        lambda t: seq(L('kw', 'SELECT', False, lead='SELECT'), t[0], seq(kw('FROM'), t[1]) if t[1] else None))
+    set_ = items.map(lambda it: seq(L('kw', 'SET', False), it))
+    return st.one_of(sel, sel, set_)
+
+
+@functools.lru_cache(maxsize=None)
+def statement(assign=False):
     """one plain (non-procedural) statement, wrapped in a 'stmt' mark whose info names the leading keyword"""
     def wrap(lx):
         lead = None
@@ -465,7 +478,10 @@ def statement():
     # a parenthesised query first: the statement starts with '(' (get_type() is UNKNOWN for it)
     paren_led = st.tuples(select(0), st.sampled_from(SETOPS), select(1)).map(
         lambda t: seq(W('paren', paren(t[0]), subquery=True), kw(t[1], clause=True), t[2]))
-    return st.one_of(select(2), select(1), select(1), insert(), update(), delete(), create_table(), drop_alter(), cte(), paren_led).map(wrap)
+    alts = [select(2), select(1), select(1), insert(), update(), delete(), create_table(), drop_alter(), cte(), paren_led]
+    if assign:
+        alts.append(assign_statement())
+    return st.one_of(*alts).map(wrap)
 
 
 @functools.lru_cache(maxsize=None)
@@ -699,13 +715,13 @@ def predrawn_layout(comments=0, comment_strategy=None, nbytes=900):
 
 
 @st.composite
-def script(draw, min_statements=1, max_statements=4, comments=10, stmt=None, last_semi=None, go=False, **lay):
+def script(draw, min_statements=1, max_statements=4, comments=10, stmt=None, last_semi=None, go=False, assign=False, **lay):
     """-> laid-out lexeme list (with marks) of k statements separated by ';' lexemes (go=True: some separators are
     followed by a GO batch-separator keyword, which ends a batch just like the ';' before it ended the statement)"""
     k = draw(st.integers(min_statements, max_statements))
     raw, pool = draw(predrawn_layout(comments, lay.get('comment_strategy')))
     flags = draw(st.lists(st.integers(0, 5), min_size=k + 1, max_size=k + 1))
-    stmts = [draw(stmt if stmt is not None else statement()) for _ in range(k)]
+    stmts = [draw(stmt if stmt is not None else statement(assign)) for _ in range(k)]
     lex = []
     for i, s in enumerate(stmts):
         lex.extend(s)
@@ -717,7 +733,7 @@ def script(draw, min_statements=1, max_statements=4, comments=10, stmt=None, las
 
 
 def rendered_script(max_statements=3, comments=10):
-    return script(0, max_statements, comments=comments).map(lambda laid: assemble(laid)[0])
+    return script(0, max_statements, comments=comments, assign=True).map(lambda laid: assemble(laid)[0])
 
 
 def words_of(clean):
